@@ -55,6 +55,7 @@ struct Extractor : public RecursiveASTVisitor<Extractor> {
     auto it = localNames.find(VD);
     if (it != localNames.end()) return it->second;
     std::string n = VD->getNameAsString();
+    if (n.empty()) n = "__sb";             // the unnamed object behind a structured binding
     int c = ++localCount[n];
     std::string u = c == 1 ? n : n + "#" + std::to_string(c);
     localNames[VD] = u;
@@ -545,6 +546,37 @@ struct Extractor : public RecursiveASTVisitor<Extractor> {
           if (VD->hasInit()) o["init"] = desc(VD->getInit(), 1);
           o["src"] = srcText(S);
           ev.push_back(std::move(o));
+          // structured binding: every name is an alias of one member of the unnamed object
+          if (auto* DD = dyn_cast<DecompositionDecl>(VD)) {
+            QualType T = DD->getType().getNonReferenceType();
+            const CXXRecordDecl* RD = T->getAsCXXRecordDecl();
+            std::vector<const FieldDecl*> fields;
+            if (RD) for (const FieldDecl* F : RD->fields()) fields.push_back(F);
+            unsigned idx = 0;
+            for (const BindingDecl* BD : DD->bindings()) {
+              json::Object b = base("decl");
+              b["n"] = BD->getNameAsString();
+              b["ty"] = typeStr(BD->getType());
+              b["tk"] = typeKind(BD->getType());
+              b["ref"] = true;
+              json::Object var{{"k", "var"}, {"n", localName(VD)}, {"vk", "local"},
+                               {"ty", typeStr(VD->getType())}, {"tk", typeKind(VD->getType())}};
+              if (fields.size() == DD->bindings().size()) {
+                const FieldDecl* F = fields[idx];
+                json::Object m{{"k", "mem"}, {"n", qualName(F)}, {"ty", typeStr(F->getType())},
+                               {"tk", typeKind(F->getType())}};
+                m["b"] = std::move(var);
+                b["init"] = std::move(m);
+              } else {
+                json::Object c{{"k", "call"}, {"name", "get<" + std::to_string(idx) + ">"}};
+                c["args"] = json::Array{std::move(var)};
+                b["init"] = std::move(c);
+              }
+              b["src"] = srcText(S);
+              ev.push_back(std::move(b));
+              ++idx;
+            }
+          }
         }
       }
       return;
